@@ -319,10 +319,10 @@ class Builder:
             self.a = exp
             self.steps.append(Step(op, "rename", "OK", copy.deepcopy(exp)))
 
-    def getter_op(self):
+    def getter_op(self, which=None):
         """A question getter (fills or reads the cached question)."""
         a = self.a
-        g = self.rng.choice(["q0", "q0", "q1", "q2", "qt"])
+        g = which or self.rng.choice(["q0", "q0", "q1", "q2", "qt"])
         if a.q is None:
             exp = {"q0": "q0=-", "q1": "q1=-", "q2": "q2=-", "qt": "qt=-"}[g]
         else:
